@@ -2,7 +2,7 @@
 (Model/Lattices/Color666ToricCode.lean) tied to
 panqec/codes/color_2d/_color_666_toric_code.py."""
 CLASS = 'Color666ToricCode'
-LEAN_MODULES = []
+LEAN_MODULES = ['PanqecVerif.Properties.C01Color666ToricCode']
 
 
 def streams(ctx):
